@@ -15,7 +15,15 @@ macro_rules! vcover { ($c:expr) => { kani::cover!($c) }; ($c:expr, $m:expr) => {
 #[cfg(not(kani))]
 macro_rules! vcover { ($c:expr) => { let _ = $c; }; ($c:expr, $m:expr) => { let _ = $c; }; }
 
+// postcondition of an ATTRIBUTE contract restated for the native replay only (under Kani the injected
+// `kani::ensures` is what is checked)
+#[cfg(kani)]
+macro_rules! vreplay_assert { ($c:expr, $m:expr) => { let _ = || $c; }; }
+#[cfg(not(kani))]
+macro_rules! vreplay_assert { ($c:expr, $m:expr) => { assert!($c, $m) }; }
+
 pub(crate) use vassume;
+pub(crate) use vreplay_assert;
 pub(crate) use vcover;
 
 // membership in the set of naturals a (lower, optional upper) pair denotes
